@@ -4,6 +4,9 @@
      KB  Tensor.fromFiber(ids, fiber, shape, d)     -> shapes, and per rank / per fiber what
                                                        the owned fibers report
      KL  a lazy operator on two fibers              -> rank id and active range of the result
+     KC  a chain of transforms (each applied to any earlier tensor of the chain)
+                                                    -> attributes and content (all stored points)
+                                                       of EVERY tensor, observed after the last step
    The oracle is written from the property text (firstn/skipn re-arrangements, "every stored
    coordinate c satisfies 0 <= c < shape and lo <= c < hi"), not by calling the model. *)
 From Coq Require Import ZArith List Bool PeanoNat.
@@ -11,10 +14,16 @@ From FT Require Import Model.Base Model.Obs Model.C14Attrs Model.C14Build.
 Import ListNotations.
 Open Scope Z_scope.
 
+(* one step of a chain: the transform, the index of its operand among the tensors produced so
+   far (0 = the initial tensor), and the points the result must store (every point = one
+   coordinate per rank; rendered by the generator from the operand's points) *)
+Record cstep := mkS { s_src : nat; s_x : xform; s_data : list (list sh) }.
+
 Inductive c14_case :=
 | KX (t : tattrs) (x : xform)
 | KB (ids : list rid) (shape : option (list Z)) (d : Z) (t : atree)
-| KL (op : lop) (ra rb : rawf).
+| KL (op : lop) (ra rb : rawf)
+| KC (t0 : tattrs) (data0 : list (list sh)) (steps : list cstep).
 
 (* ------------------------------------------------------------------ model observations *)
 Definition V_dflt (leaf : bool) (d : Z) : V := if leaf then VL [VZ d] else VL [].
@@ -37,11 +46,34 @@ Definition build_obs (ids : list rid) (shape : option (list Z)) (d : Z) (t : atr
 
 Definition V_fattrs (f : fattrs) : V := VL [V_atom (f_id f); Vp VZ VZ (f_active f)].
 
+(* the attributes of every tensor of a chain, F being the transform semantics *)
+Fixpoint chain_run (F : xform -> tattrs -> option tattrs) (acc : list (option tattrs))
+         (steps : list cstep) : list (option tattrs) :=
+  match steps with
+  | [] => acc
+  | s :: rest =>
+    let r := match nth_error acc (s_src s) with
+             | Some (Some t) => F (s_x s) t
+             | _ => None
+             end in
+    chain_run F (acc ++ [r]) rest
+  end.
+
+(* per tensor: attributes; stored points; "leaves sit exactly at the last rank and every rank
+   lists exactly the fibers of its level" *)
+Definition V_chain_tensor (ad : option tattrs * list (list sh)) : V :=
+  VL [V_otattrs (fst ad); Vl (Vl V_sh) (snd ad); VZ 1].
+
+Definition kc_obs (F : xform -> tattrs -> option tattrs) (t0 : tattrs) (data0 : list (list sh))
+           (steps : list cstep) : V :=
+  Vl V_chain_tensor (combine (chain_run F [Some t0] steps) (data0 :: map s_data steps)).
+
 Definition c14_model (c : c14_case) : V :=
   match c with
   | KX t x => V_otattrs (xform_attrs x t)
   | KB ids shape d t => build_obs ids shape d t
   | KL op ra rb => V_fattrs (lazy_attrs op (raw_attrs ra) (raw_attrs rb))
+  | KC t0 data0 steps => kc_obs xform_attrs t0 data0 steps
   end.
 
 (* ------------------------------------------------------------------ KX: the re-arrangements *)
@@ -144,8 +176,10 @@ Fixpoint nodup_rid (l : list rid) : bool :=
 
 Definition is_sz (s : sh) : bool := match s with SZ _ => true | ST _ => false end.
 
-(* swizzle sorts the rank ids (str/list comparisons fail); the data-level swap and flatten do
-   not accept tuple coordinates: those transforms are defined on un-flattened ranks only *)
+(* swizzle sorts the rank ids (str/list comparisons fail) and the data-level swap does not accept
+   tuple coordinates: defined on un-flattened ranks only.  A tuple-style flatten of a segment
+   that contains an already flattened rank is excluded: _flattenRankIdsShape nests that rank's
+   tuple shape while ids and coordinates are concatenated flat (reported as a suspect) *)
 Definition is_rs (r : rid) : bool := match r with RS _ => true | RL _ => false end.
 
 Definition wf_t (t : tattrs) : bool :=
@@ -164,7 +198,7 @@ Definition wf_x (x : xform) (t : tattrs) : bool :=
   | XSwap d => Nat.ltb (S d) (length (t_ids t)) && forallb is_rs (firstn 2 (skipn d (t_ids t)))
   | XFlatten d l st | XMerge d l st =>
     Nat.ltb 0 l && Nat.ltb (d + l) (length (t_ids t)) && (0 <=? st) && (st <=? 4)
-    && forallb is_rs (firstn (S l) (skipn d (t_ids t)))
+    && (forallb is_rs (firstn (S l) (skipn d (t_ids t))) || negb (st =? 0))
     && (negb ((st =? 2) || (st =? 3)) || forallb is_rs (t_ids t))
     && negb (mem_rid (RL (flat_map atoms_of (firstn (S l) (skipn d (t_ids t))))) (t_ids t))
     && (negb (Z.eqb st 4)
@@ -287,6 +321,48 @@ Definition holds_kb (ids : list rid) (shape : option (list Z)) (d : Z) (t : atre
   | _ => false
   end.
 
+(* ------------------------------------------------------------------ KC: chains *)
+(* a stored coordinate lies inside a shape entry, component-wise for tuples *)
+Fixpoint coord_in (s c : sh) : bool :=
+  match s, c with
+  | SZ n, SZ x => (0 <=? x) && (x <? n)
+  | ST ss, ST cs =>
+    (fix go (ss cs : list sh) : bool :=
+       match ss, cs with
+       | [], [] => true
+       | a :: ss', b :: cs' => coord_in a b && go ss' cs'
+       | _, _ => false
+       end) ss cs
+  | _, _ => false
+  end.
+
+(* every point has one coordinate per rank, inside the reported shape when there is one *)
+Definition data_ok (ad : option tattrs * list (list sh)) : bool :=
+  match fst ad with
+  | None => false
+  | Some t =>
+    forallb (fun pt => Nat.eqb (length pt) (length (t_ids t))
+                       && match t_shape t with
+                          | Some s => forallb2 coord_in s pt
+                          | None => true
+                          end) (snd ad)
+  end.
+
+(* every step's operand exists and the step is a well-formed transform of it *)
+Fixpoint chain_wf (acc : list (option tattrs)) (steps : list cstep) : bool :=
+  match steps with
+  | [] => true
+  | s :: rest =>
+    match nth_error acc (s_src s) with
+    | Some (Some t) => wf_kx t (s_x s) && chain_wf (acc ++ [xform_spec (s_x s) t]) rest
+    | _ => false
+    end
+  end.
+
+Definition wf_kc (t0 : tattrs) (data0 : list (list sh)) (steps : list cstep) : bool :=
+  wf_t t0 && chain_wf [Some t0] steps
+  && forallb data_ok (combine (chain_run xform_spec [Some t0] steps) (data0 :: map s_data steps)).
+
 (* ------------------------------------------------------------------ KL oracle *)
 Definition wf_kl (op : lop) (a b : fattrs) : bool :=
   match op with
@@ -324,6 +400,7 @@ Definition c14_wf (c : c14_case) : bool :=
   | KX t x => wf_kx t x
   | KB ids shape d t => wf_kb ids shape d t
   | KL op ra rb => wf_kl op (raw_attrs ra) (raw_attrs rb)
+  | KC t0 data0 steps => wf_kc t0 data0 steps
   end.
 
 Definition c14_holds (c : c14_case) (o : V) : bool :=
@@ -332,6 +409,7 @@ Definition c14_holds (c : c14_case) (o : V) : bool :=
   | KX t x => V_eqb (V_otattrs (xform_spec x t)) o
   | KB ids shape d t => holds_kb ids shape d t o
   | KL op ra rb => holds_kl op (raw_attrs ra) (raw_attrs rb) o
+  | KC t0 data0 steps => V_eqb (kc_obs xform_spec t0 data0 steps) o
   end.
 
 Definition c14_checker : checker c14_case :=
